@@ -15,6 +15,27 @@ BUILDERS = {
 EXTRA_STAGES = {}
 
 PROPS = {
+    "C05": {
+        "stages": [{"kind": "cases", "name": "index", "driver": "C05", "n": {"quick": 1500, "thorough": 20000}}],
+        "rule": "operation histories (4-30 ops: add / remove / dispatch) against the real SubscriberList (index cache of 1, 2, 3 or 100000 memos; "
+                "selector store uncached or tiny LRU); topics over {a,b,0,1,U+0000,U+0001,'{','}','*','/',multibyte, empty string}, 1-4 topics with duplicates "
+                "and permuted re-dispatches, private bit; recipients compared as sets with the model index and with the naive history-based spec, the "
+                "URI-template oracle evaluated afresh per case. non-trivial = some dispatch has at least one matching and one non-matching connected subscriber",
+        "trusted": ["skipfilter/skiplist/roaring/LRU modelled by contract (ordered id set + per-key memo, arbitrary forgetting)",
+                    "uritemplate + regexp as oracle (Section variable tmatch; hypothesis: brace-free templates match only themselves)"],
+        "assumptions": ["topic lists are non-empty (the HTTP handlers reject empty ones)", "no subscriber is added while connected",
+                        "topics are valid UTF-8 (decode iterates runes; on valid UTF-8 bytes 0x00/0x01 occur only as U+0000/U+0001)"],
+    },
+    "C11": {
+        "stages": [{"kind": "cases", "name": "lookups", "driver": "C11", "n": {"quick": 1500, "thorough": 20000}}],
+        "rule": "sequences of 5-30 (topic, selector) lookups, and 2-4 goroutines sharing one store, against stores without cache, of size 0, tiny "
+                "(1-3 entries x 1-2 shards) and default; selectors: literals, every RFC 6570 operator/modifier, malformed templates; topics: expansions for "
+                "random values, near misses, strings around the cache-key separator '_' and pairs built to collide under key concatenation; every answer "
+                "compared with the cached model and with a fresh uncached evaluation by the library. non-trivial = sequence has both true and false answers",
+        "trusted": ["uritemplate + Go regexp as oracle (Section variable tmatch); layer B (the template language itself) is not modelled",
+                    "hashicorp LRU modelled as a map that may forget any entry at any time"],
+        "assumptions": [],
+    },
     "C12": {
         "stages": [{"kind": "cases", "name": "sse", "driver": "C12", "n": {"quick": 3000, "thorough": 40000}}],
         "rule": "unit cases: Event.String() bytes of generated events (payload alphabet CR/LF/CRLF/':'/space/field names/NUL/multibyte; "
